@@ -640,6 +640,78 @@ class ViewMixin:
             return r
         return super().e_ListComp(n, st)
 
+    # ---- `for x in xs: acc.append(E)` over a symbolic sequence == `acc = acc + [E for x in xs]` (loop <-> comprehension) ----
+    def loop_as_comprehension(self, s, st):
+        if s.orelse or len(s.body) != 1:
+            return None
+        b = s.body[0]
+        ifs = []
+        if isinstance(b, ast.If) and not b.orelse and len(b.body) == 1:
+            ifs, b = [b.test], b.body[0]
+        if not (isinstance(b, ast.Expr) and isinstance(b.value, ast.Call) and isinstance(b.value.func, ast.Attribute) and b.value.func.attr == "append"
+                and isinstance(b.value.func.value, ast.Name) and len(b.value.args) == 1 and not b.value.keywords):
+            return None
+        accname = b.value.func.value.id
+        elt = b.value.args[0]
+        if any(isinstance(n, ast.Name) and n.id == accname for n in ast.walk(elt)) or any(isinstance(n, ast.Name) and n.id == accname for c in ifs for n in ast.walk(c)):
+            return None
+        if any(isinstance(n, (ast.Yield, ast.YieldFrom, ast.Await, ast.NamedExpr)) for n in ast.walk(s)):
+            return None
+        acc = st.lookup(accname)
+        if not isinstance(acc, VRef) or st.obj(acc.ref).kind != "list" or st.obj(acc.ref).data != []:
+            return None
+        mark = len(self.sinks[-1])
+        probe = self.ev(s.iter, st.fork())
+        del self.sinks[-1][mark:]
+        if len(probe) != 1 or self.concrete_items(probe[0][0], probe[0][1]) is not None or self.seq_view(probe[0][0], probe[0][1]) is None:
+            return None
+        comp = ast.ListComp(elt=elt, generators=[ast.comprehension(target=s.target, iter=s.iter, ifs=ifs, is_async=0)])
+        ast.copy_location(comp, s)
+        ast.fix_missing_locations(comp)
+        from pyvc.symex import Outcome
+        outs = []
+        for (s2, val) in self.ev(comp, st):
+            if isinstance(val, VRef):
+                o = s2.obj(val.ref)
+                fresh = s2.obj(acc.ref).fresh
+                s2.heap[acc.ref] = HeapObj(o.kind, o.data if not isinstance(o.data, list) else list(o.data), o.cls, fresh)
+                outs.append(Outcome("fall", s2))
+            else:
+                return None
+        return outs
+
+    def s_For(self, s, st):
+        try:
+            r = self.loop_as_comprehension(s, st)
+        except Unsupported:
+            r = None
+        if r is not None:
+            return r
+        return super().s_For(s, st)
+
+    def e_YieldFrom(self, n, st):
+        mode = self.view_mode()
+        if mode in ("images", "tables"):
+            out = []
+            for (s, v) in self.ev(n.value, st):
+                if self.is_zlist(s, v) and isinstance(s.obj(v.ref).cls, tuple) and s.obj(v.ref).cls[0] == "obj":
+                    y = dict(self.yz(s))
+                    key = "img" if mode == "images" else "tab"
+                    if mode == "tables" and s.obj(v.ref).cls != ("obj", "__table__"):
+                        raise Unsupported(f"{self.loc(n)} yield from a list of {s.obj(v.ref).cls!r} in a table iterator")
+                    y[key] = z3.Concat(y[key], s.obj(v.ref).data)
+                    s.ghost["YZ"] = y
+                    out.append((s, NONE))
+                else:
+                    items = self.concrete_items(s, v)
+                    if items is None:
+                        raise Unsupported(f"{self.loc(n)} yield from {v!r}")
+                    if items:
+                        raise Unsupported(f"{self.loc(n)} yield from a non-empty concrete iterable in a view")
+                    out.append((s, NONE))
+            return out
+        return super().e_YieldFrom(n, st)
+
     def e_Yield(self, n, st):
         mode = self.view_mode()
         if mode is None:
